@@ -35,13 +35,14 @@ NOTES = ("Technique family: static analysis only. Every check parses the "
          "state machine model, C17: 51 EEPROM images, C20: all slot tables "
          "of up to 6 FMMUs, C25: small-scope exhaustive draw sequences) "
          "and adds checker "
-         "self-validation on the recorded corpora: 696 seeded "
-         "property-breaking changes (693 reported, two without verdict and "
+         "self-validation on the recorded corpora: 732 seeded "
+         "property-breaking changes (727 reported, four without verdict and "
          "one gap recorded), 16 "
          "mechanical variants and 696 hand-made behaviour-preserving "
          "refactorings (all silent; one run takes the property's own and "
          "a fixed quarter of the others, SA_SELFVAL_ALL=1 all of them). Held-out first-run "
-         "rates of the last two waves: 82 % of 87 unseen breaking changes "
+         "rates of the last waves: 82 % of 87 and, with the final checks, "
+         "86 % of 36 unseen breaking changes "
          "reported, 7 % of 87 unseen refactorings noisy (DESIGN.md 7.4).")
 
 _TRUST = ("Python semantics of the constructs the rules read; the frozen "
